@@ -186,6 +186,7 @@ def required_cells(tier):
         "e2e:quotient-below-integer": 20,
         "pttempo-refuses-n<2": 4, "tebd:query-between-computes": 2,
         "num_steps:0": 20, "num_steps:>0": 20,
+        "with-trivial-process-tensor": 20,
         "container:add-shuffled": 2, "container:constructor-unsorted": 2,
         "container:merge-two-runs": 2, "reimported-pt:file": 5,
         "reimported-pt:simple": 5,
@@ -743,6 +744,23 @@ def _e2e_point(book, dt, start, end, n, m, tag, apis, shortcut):
                                   ra, det)
             worst = max(worst, _check_states(book, api, model, dyn.states,
                                              steps, start, dt, det))
+    # -- an (infinite) TrivialProcessTensor next to the real one, in either
+    #    order: the length is still that of the finite process tensor
+    if "compute_dynamics" in apis and m % 2 == 0:
+        for plist in ([pt, oqupy.TrivialProcessTensor(2)],
+                      [oqupy.TrivialProcessTensor(2), pt]):
+            for ra in (True, False):
+                dyn = oqupy.compute_dynamics(
+                    tdsys, RHO0, start_time=start, process_tensor=plist,
+                    record_all=ra, subdiv_limit=None, progress_type="silent")
+                book.cell("with-trivial-process-tensor")
+                steps = _check_labels(
+                    book, "compute_dynamics:" + ("all" if ra else "final"),
+                    dyn.times, start, dt, length, ra,
+                    dict(det, trivial_pt_in_list=True))
+                worst = max(worst, _check_states(
+                    book, "compute_dynamics:" + ("all" if ra else "final"),
+                    model, dyn.states, steps, start, dt, det))
     # -- only the first k steps of a longer process tensor (k = 0: the
     #    initial state alone, labelled start), and no process tensor at all
     if "compute_dynamics" in apis:
